@@ -101,3 +101,158 @@ pub fn decode<R: Read>(ty: Ty, codec: Codec, r: R) -> Decoded {
 pub fn decode_slice(ty: Ty, codec: Codec, bytes: &[u8]) -> Decoded {
     decode(ty, codec, bytes)
 }
+
+// ---------------------------------------------------------------------------
+// A minimal self-describing deserializer: hands ONE primitive of a chosen kind
+// and width to the visitor, claiming to be human-readable or not. It stands
+// for every data format other than serde_json text and bincode (formats that
+// return integers in their stored width, floats, bytes, options, newtypes...).
+// ---------------------------------------------------------------------------
+
+use serde::de::{self, Deserializer, Visitor};
+
+#[derive(Clone, Debug, PartialEq)]
+pub enum Prim<'de> {
+    I8(i8),
+    I16(i16),
+    I32(i32),
+    I64(i64),
+    I128(i128),
+    U8(u8),
+    U16(u16),
+    U32(u32),
+    U64(u64),
+    U128(u128),
+    F32(f32),
+    F64(f64),
+    Bool(bool),
+    Char(char),
+    Str(&'de str),
+    BorrowedStr(&'de str),
+    String(&'de str),
+    Bytes(&'de [u8]),
+    ByteBuf(&'de [u8]),
+    Unit,
+    None,
+    SomeI64(i64),
+    SomeStr(&'de str),
+    NewtypeI64(i64),
+    NewtypeStr(&'de str),
+    Seq,
+    SeqI64(i64),
+    Map,
+}
+
+pub struct SimDe<'de> {
+    pub prim: Prim<'de>,
+    pub human: bool,
+}
+
+impl<'de> Deserializer<'de> for SimDe<'de> {
+    type Error = de::value::Error;
+
+    fn deserialize_any<V: Visitor<'de>>(self, v: V) -> Result<V::Value, Self::Error> {
+        let human = self.human;
+        match self.prim {
+            Prim::I8(x) => v.visit_i8(x),
+            Prim::I16(x) => v.visit_i16(x),
+            Prim::I32(x) => v.visit_i32(x),
+            Prim::I64(x) => v.visit_i64(x),
+            Prim::I128(x) => v.visit_i128(x),
+            Prim::U8(x) => v.visit_u8(x),
+            Prim::U16(x) => v.visit_u16(x),
+            Prim::U32(x) => v.visit_u32(x),
+            Prim::U64(x) => v.visit_u64(x),
+            Prim::U128(x) => v.visit_u128(x),
+            Prim::F32(x) => v.visit_f32(x),
+            Prim::F64(x) => v.visit_f64(x),
+            Prim::Bool(x) => v.visit_bool(x),
+            Prim::Char(x) => v.visit_char(x),
+            Prim::Str(s) => v.visit_str(s),
+            Prim::BorrowedStr(s) => v.visit_borrowed_str(s),
+            Prim::String(s) => v.visit_string(s.to_string()),
+            Prim::Bytes(b) => v.visit_bytes(b),
+            Prim::ByteBuf(b) => v.visit_byte_buf(b.to_vec()),
+            Prim::Unit => v.visit_unit(),
+            Prim::None => v.visit_none(),
+            Prim::SomeI64(x) => v.visit_some(SimDe { prim: Prim::I64(x), human }),
+            Prim::SomeStr(s) => v.visit_some(SimDe { prim: Prim::Str(s), human }),
+            Prim::NewtypeI64(x) => v.visit_newtype_struct(SimDe { prim: Prim::I64(x), human }),
+            Prim::NewtypeStr(s) => v.visit_newtype_struct(SimDe { prim: Prim::Str(s), human }),
+            Prim::Seq => v.visit_seq(de::value::SeqDeserializer::<_, Self::Error>::new(std::iter::empty::<i64>())),
+            Prim::SeqI64(x) => v.visit_seq(de::value::SeqDeserializer::<_, Self::Error>::new(std::iter::once(x))),
+            Prim::Map => v.visit_map(de::value::MapDeserializer::<_, Self::Error>::new(std::iter::empty::<(i64, i64)>())),
+        }
+    }
+
+    fn is_human_readable(&self) -> bool {
+        self.human
+    }
+
+    serde::forward_to_deserialize_any! {
+        bool i8 i16 i32 i64 i128 u8 u16 u32 u64 u128 f32 f64 char str string
+        bytes byte_buf option unit unit_struct newtype_struct seq tuple
+        tuple_struct map struct enum identifier ignored_any
+    }
+}
+
+pub fn decode_value(ty: Ty, prim: Prim<'_>, human: bool) -> Decoded {
+    use serde::Deserialize;
+    let res = std::panic::catch_unwind(std::panic::AssertUnwindSafe(|| -> Result<i64, ()> {
+        let d = SimDe { prim, human };
+        Ok(match ty {
+            Ty::Date => Date::deserialize(d).map_err(|_| ())?.days() as i64,
+            Ty::Timestamp => Timestamp::deserialize(d).map_err(|_| ())?.usecs(),
+            Ty::Time => Time::deserialize(d).map_err(|_| ())?.usecs(),
+            Ty::IntervalYM => IntervalYM::deserialize(d).map_err(|_| ())?.months() as i64,
+            Ty::IntervalDT => IntervalDT::deserialize(d).map_err(|_| ())?.usecs(),
+            Ty::Oracle => OracleDate::deserialize(d).map_err(|_| ())?.usecs(),
+        })
+    }));
+    match res {
+        Ok(Ok(v)) => Decoded::Ok(v),
+        Ok(Err(())) => Decoded::Err,
+        Err(_) => Decoded::Panic(last_panic()),
+    }
+}
+
+pub const VALUE_KINDS: [&str; 28] = [
+    "i8", "i16", "i32", "i64", "i128", "u8", "u16", "u32", "u64", "u128", "f32", "f64", "bool", "char", "str",
+    "borrowed_str", "string", "bytes", "byte_buf", "unit", "none", "some_i64", "some_str", "newtype_i64", "newtype_str",
+    "seq", "seq_i64", "map",
+];
+
+/// Builds the primitive of `kind` from a raw count (wrapping / converting as
+/// the kind demands) or a text.
+pub fn make_prim<'a>(kind: &str, raw: i64, text: &'a str) -> Prim<'a> {
+    match kind {
+        "i8" => Prim::I8(raw as i8),
+        "i16" => Prim::I16(raw as i16),
+        "i32" => Prim::I32(raw as i32),
+        "i64" => Prim::I64(raw),
+        "i128" => Prim::I128(raw as i128),
+        "u8" => Prim::U8(raw as u8),
+        "u16" => Prim::U16(raw as u16),
+        "u32" => Prim::U32(raw as u32),
+        "u64" => Prim::U64(raw as u64),
+        "u128" => Prim::U128(raw as u64 as u128),
+        "f32" => Prim::F32(raw as f32),
+        "f64" => Prim::F64(raw as f64),
+        "bool" => Prim::Bool(raw & 1 == 1),
+        "char" => Prim::Char(char::from_u32((raw as u32) % 0xD800).unwrap_or('0')),
+        "str" => Prim::Str(text),
+        "borrowed_str" => Prim::BorrowedStr(text),
+        "string" => Prim::String(text),
+        "bytes" => Prim::Bytes(text.as_bytes()),
+        "byte_buf" => Prim::ByteBuf(text.as_bytes()),
+        "unit" => Prim::Unit,
+        "none" => Prim::None,
+        "some_i64" => Prim::SomeI64(raw),
+        "some_str" => Prim::SomeStr(text),
+        "newtype_i64" => Prim::NewtypeI64(raw),
+        "newtype_str" => Prim::NewtypeStr(text),
+        "seq" => Prim::Seq,
+        "seq_i64" => Prim::SeqI64(raw),
+        _ => Prim::Map,
+    }
+}
